@@ -165,6 +165,23 @@ def c07_3(rep, E, ix):
                 rep.check(not leak, R, ix.site(f, e.node), "`%s` stores nothing that is shared with the stored include into the program" % txt,
                           "stored value may contain objects of %s" % leak, key="store|" + txt)
         n += 1
+    # the applied program is the registered include or its instantiation for THIS call
+    lookups = [n for n in walk_shallow(f.node) if isinstance(n, ast.Assign) and len(n.targets) == 1 and isinstance(n.targets[0], ast.Name) and "self._includes[" in u(n.value)]
+    if len(lookups) == 1:
+        bbn = lookups[0].targets[0].id
+        for n in walk_shallow(f.node):
+            if isinstance(n, ast.Assign) and any(isinstance(t, ast.Name) and t.id == bbn for t in n.targets) and n is not lookups[0]:
+                v = n.value
+                inst = isinstance(v, ast.Call) and isinstance(v.func, ast.Name) and v.func.id == bbn and not v.args and len(v.keywords) == 1 and v.keywords[0].arg is None
+                rep.check(inst, R, ix.site(f, n), "`%s`: the program that is expanded is the registered include or its instantiation for this call" % " ".join(u(n).split())[:70],
+                          "the expanded program comes from elsewhere (e.g. a cache of earlier instantiations): parameter values of another call can be reused", key="define|" + " ".join(u(n).split())[:70])
+        # the instantiation is not conditional on anything but the template checks
+        for n in walk_shallow(f.node):
+            if isinstance(n, ast.Call) and isinstance(n.func, ast.Name) and n.func.id == bbn and any(k.arg is None for k in n.keywords):
+                st = stmt_of_call(f.node, n)
+                okst = isinstance(st, ast.Assign) and isinstance(st.targets[0], ast.Name) and st.targets[0].id == bbn
+                rep.check(okst, R, ix.site(f, n), "every template call instantiates the include afresh (`%s = %s(**kwargs)`)" % (bbn, bbn), "instantiation result goes to `%s`" % " ".join(u(st).split())[:60],
+                          key="instantiate")
     # exitInclude may register, nothing else may touch _includes
     for q, evs in E.events.items():
         if q in (HANDLER, INCLUDE, "listener.BlackbirdListener.__init__"):
@@ -173,6 +190,11 @@ def c07_3(rep, E, ix):
             tgt_inc = [o for o in e.target.self_o if o in INC]
             if tgt_inc:
                 rep.bad(R, ix.site(ix.funcs[q], e.node), "only exitInclude registers includes", e.what, key=q + "|includes")
+
+
+def stmt_of_call(fn, node):
+    from ..py.guards import stmt_of
+    return stmt_of(fn, node)
 
 
 # ---------------------------------------------------------------------------------------- C07.4 call checks precede expansion
